@@ -529,6 +529,10 @@ func (env *SpecEnv) call(x *SCall) Val {
 		case "tag":
 			v := env.eval(x.Args[0])
 			return spec1(v.L[0])
+		case "typetag":
+			// typetag(*T): the dynamic type tag interface values holding a *T carry
+			t := env.parseType(x.Raw[0])
+			return spec1(Int(int64(ex.P.tagOf(t))))
 		case "deref":
 			v := env.eval(x.Args[0])
 			if v.T == nil || !isPointer(v.T) {
